@@ -55,6 +55,7 @@ def gen(rng, tier):
     spec["base_exc"] = rng.random() < 0.6
     spec["warn_error"] = rng.random() < 0.4
     spec["refused"] = rng.random() < 0.4
+    spec["defaults_after"] = rng.random() < 0.4
     return spec
 
 
@@ -68,7 +69,7 @@ def extra_candidates(spec):
         c = dict(spec)
         c["points"] = pts[:i] + pts[i + 1:]
         yield c
-    for k in ("due", "reverse", "warn_error", "refused"):
+    for k in ("due", "reverse", "warn_error", "refused", "defaults_after"):
         if spec.get(k):
             c = dict(spec)
             c[k] = False
@@ -147,6 +148,21 @@ def one_backward(spec, inject=None, limit=None, warn_error=False):
 
 def check_after(res, spec, p, before, what, tag, dtwin):
     compare_structure(res, before, p, what, tag)
+    if spec.get("defaults_after") and tag == "clean":
+        # ... also when that later simulate() is called with default arguments only (no absence list given: none applies)
+        mt = spec["cfg"].get("max_time", 40)
+        scen.setup_run(spec.get("seed", 0))
+        b0 = B.build(spec["model"], spec.get("ranks"))
+        o0 = D.call(lambda: b0.project.simulate(max_time=mt), D.Recorder(b0.project, want_snap=False))
+        o1 = D.call(lambda: p.simulate(max_time=mt), D.Recorder(p, want_snap=False))
+        d0, d1 = D.dump(b0.project), D.dump(p)
+        d0["_outcome"], d1["_outcome"] = [o0.ok, o0.exc_type, o0.where], [o1.ok, o1.exc_type, o1.where]
+        dd = D.first_diff(d0, d1)
+        res.count("forward_with_default_arguments_compared")
+        if dd is not None:
+            res.add("twin", "C17.forward_with_default_arguments_after_backward_differs",
+                    "%s: a following simulate(max_time=%d) with default arguments differs from the same call on a project that never ran "
+                    "backward at %s: %r vs %r" % (what, mt, dd[0], dd[1], dd[2]), None)
     rec, out = scen.simulate(p, spec["cfg"], want_snap=False)
     d = D.dump(p)
     d["_outcome"] = [out.ok, out.exc_type, out.where]
